@@ -431,7 +431,7 @@ NoBlockedHolder == ~(blocked # <<>> /\ Len(errq) >= ErrCap /\ mainPc \in {"termi
 \* a step that shows waiting_for_input has no unread input for the stage it is in
 \* (a step that left through its cancelled context - cont exit/done - no longer reads; its closing state updates are queued)
 StateSlotTruthful == \A s \in Steps : (state[s] = "waiting_for_input" /\ cont[s] \notin {"exit", "done"}) =>
-                        /\ (stage[s] = "deploy" => slotD[s] = 0 \/ cont[s] = "awaitD")   \* transient: the receive is the very next statement
+                        /\ (stage[s] = "deploy" => slotD[s] = 0 \/ (~DeployWaitChecked /\ cont[s] = "awaitD"))   \* before the repair: a transient
                         /\ (stage[s] = "enabling" => slotE[s] = "empty")
                         /\ (stage[s] = "starting" => slotR[s] = 0)
 DetectorSound == fired \subseteq {"quiescent"}              \* violated: the known in-flight window
